@@ -128,7 +128,13 @@ class Pseudo2NetCDF:
         try:
             typecode = pvar.typecode()
         except Exception:
-            typecode = pvar[...].dtype.char
+            # the declared type where there is one: the values of a masked
+            # scalar come back as the (float64) masked constant
+            typecode = getattr(pvar, 'dtype', None)
+            if isinstance(typecode, np.dtype):
+                typecode = typecode.char
+            else:
+                typecode = pvar[...].dtype.char
             if typecode == 'S':
                 # character data of a variable without typecode() (e.g.,
                 # read from netCDF): numpy's bare 'S' is a string of length
